@@ -572,6 +572,49 @@ func runWriters(c *core.Ctx) []core.Obligation {
 			}
 		}
 	}
+	// the update cursor (after round-8 seed C14-r8m1, the collection of the pending edges moved in front of the
+	// Lock): pendingAdditionsPos and pendingRemovals say what is still to be indexed, and applyUpdatesInternal
+	// advances them under the mutex. A goroutine that READS them without the mutex can act on a stale cursor - two
+	// first queries both collect the same pending shapes and the second applies them again to an index that has
+	// already been published as fresh. Readers are therefore held to the same discipline as writers.
+	for _, fn := range c.GeoFuncs() {
+		reads := map[string]ssa.Instruction{}
+		core.AllInstrs(fn, func(in ssa.Instruction) {
+			ld, ok := in.(*ssa.UnOp)
+			if !ok || ld.Op != token.MUL {
+				return
+			}
+			fr, ok := core.AsFieldAddr(ld.X)
+			if !ok || fr.Struct == nil || fr.Struct.Obj().Name() != "ShapeIndex" || (fr.Name != "pendingAdditionsPos" && fr.Name != "pendingRemovals") {
+				return
+			}
+			if _, seen := reads[fr.Name]; !seen {
+				reads[fr.Name] = in
+			}
+		})
+		var fields []string
+		for f := range reads {
+			fields = append(fields, f)
+		}
+		sort.Strings(fields)
+		for _, f := range fields {
+			construct := fmt.Sprintf("%s:reads:%s", core.FuncName(fn), f)
+			site := c.Pos(reads[f].Pos())
+			name := core.FuncName(fn)
+			if fn.Parent() != nil {
+				name = core.FuncName(fn.Parent())
+			}
+			switch {
+			case singleThreadedMutators[name] != "":
+				obs = append(obs, core.Ob("R-WRITERS", construct, site, core.FuncName(fn), core.Discharged, singleThreadedMutators[name]))
+			case lockOnly[fn]:
+				obs = append(obs, core.Ob("R-WRITERS", construct, site, core.FuncName(fn), core.Discharged, "every call path into this function starts inside the region where ShapeIndex.mu is held"))
+			default:
+				obs = append(obs, core.Ob("R-WRITERS", construct, site, core.FuncName(fn), core.Violated,
+					fmt.Sprintf("reads the update cursor ShapeIndex.%s but can be called without ShapeIndex.mu held and is not one of the documented single-threaded mutators: two goroutines whose first queries overlap both see the same pending shapes, and the one that gets the mutex second applies them again to an index that is already published as fresh", f)))
+			}
+		}
+	}
 	return obs
 }
 
@@ -780,6 +823,39 @@ func runGlobal(c *core.Ctx) []core.Obligation {
 					case *ssa.MapUpdate:
 						if ld, ok := x.Map.(*ssa.UnOp); ok && ld.X == ssa.Value(g) {
 							writes = true
+						}
+					case *ssa.UnOp:
+						// a POINTER read out of the variable (g itself, g[i], g.f) and used as the receiver of a method outside
+						// the library (after round-9 seeds C02-r9m2 and C16-r9m1, package-level scratch *big.Float values
+						// whose Mul is called from Dot / Cross): such methods write through their receiver (big.Float.Mul,
+						// Set, ... store the result there), so the object the variable points to is written on every call
+						if x.Op == token.MUL {
+							base := x.X
+							for i := 0; i < 3; i++ {
+								switch y := base.(type) {
+								case *ssa.FieldAddr:
+									base = y.X
+								case *ssa.IndexAddr:
+									base = y.X
+								}
+							}
+							if base == ssa.Value(g) {
+								if _, isPtr := x.Type().Underlying().(*types.Pointer); isPtr {
+									for _, r := range *x.Referrers() {
+										ci, ok := r.(ssa.CallInstruction)
+										if !ok || ci.Common().IsInvoke() || len(ci.Common().Args) == 0 || ci.Common().Args[0] != ssa.Value(x) {
+											continue
+										}
+										callee := ci.Common().StaticCallee()
+										if callee == nil || callee.Signature.Recv() == nil || core.IsGeo(callee) {
+											continue
+										}
+										if _, ptrRecv := callee.Signature.Recv().Type().(*types.Pointer); ptrRecv {
+											writes = true
+										}
+									}
+								}
+							}
 						}
 					case ssa.CallInstruction:
 						// the variable's own storage handed to a callee: &g, &g.f, &g[i] or g[:] of a package-level array
